@@ -347,11 +347,13 @@ pub struct ChunkItem {
     pub spec: ChunkSpec,
     /// extra bytes appended inside the chunk (counted in its size)
     pub pad: Vec<u8>,
+    /// user-data chunks: bits set in the flags word beyond the three the format defines (1 text, 2 colour, 4 properties)
+    pub flag_junk: u32,
 }
 
 impl From<ChunkSpec> for ChunkItem {
     fn from(spec: ChunkSpec) -> Self {
-        ChunkItem { spec, pad: vec![] }
+        ChunkItem { spec, pad: vec![], flag_junk: 0 }
     }
 }
 
